@@ -71,6 +71,8 @@ GRAPHS = {
     "single": {"A": []},
     "chain": {"A": [("B", "/B_main")], "B": []},
     "diamond": {"A": [("B", "/B_main"), ("C", None)], "B": [("D", "/D_main/D_sub")], "C": [("D", "/D_main")], "D": []},
+    "long-chain": {"A": [("B", "/B_main")], "B": [("C", "/C_main", "inner")], "C": [("D", "/D_main", "inner")],
+                   "D": [("E", "/E_main", "inner")], "E": [("F", "/F_main", "inner")], "F": [("G", "/G_main", "inner")], "G": []},
     "nested": {"A": [("B", "/B_main")], "B": [("C", "/C_main", "inner")], "C": []},
     "nested-whole": {"A": [("B", "/B_main")], "B": [("C", None, "inner"), ("C", "/C_main/C_sub", "inner")], "C": []},
     "missing-leaf": {"A": [("M", "/M_main")]},
@@ -318,7 +320,7 @@ def _prepare_cache(state, script, urls):
             # the cache holds an older version of every resource; 'stale' files are also older than the
             # cache age (they must be fetched again), 'warm-outdated' ones are fresh (they may be served
             # until a refresh)
-            old = time.time() - 2 * 86400 - 60
+            old = time.time() - 25 * 3600          # only just outdated (the cache age is one day)
             for f in os.listdir(cache_dir()):
                 fp = os.path.join(cache_dir(), f)
                 with open(fp) as fh:
@@ -399,7 +401,7 @@ def judge(rec, scn, urls, ref, s, outcomes, objs, before, after, fs, decisions):
                 rec.violation("unfetchable-resource:%s-returned-a-document:%s" % (step[0], scn["cache"]),
                               "%s step %d: the resource cannot be fetched and the cache holds %s" % (
                                   sk, i, "nothing" if scn["cache"] == "empty" else "an outdated copy"), case)
-    if scn["graph"] in ("single", "chain", "nested", "nested-whole", "diamond") and len(outcomes) == len(script):
+    if scn["graph"] in ("single", "chain", "long-chain", "nested", "nested-whole", "diamond") and len(outcomes) == len(script):
         for i, (step, o) in enumerate(zip(script, outcomes)):
             if step[0] not in ("load", "tload", "docrepository"):
                 continue
@@ -421,6 +423,15 @@ def judge(rec, scn, urls, ref, s, outcomes, objs, before, after, fs, decisions):
                 if o[0] == "doc":
                     rec.violation("unresolvable-include:%s-returned-a-document" % step[0],
                                   "%s step %d: %r" % (sk, i, sorted(names_of_model(o[1]))), case)
+    if scn["cache"] == "stale" and len(outcomes) == len(script):
+        # independent of the reference run: an outdated cache entry (older than the cache age) is fetched again, so no
+        # loaded document may carry the marks the outdated copies were given
+        for i, (step, o) in enumerate(zip(script, outcomes)):
+            if step[0] in ("load", "tload") and o[0] == "doc":
+                rec.monitor("resolved-structure")
+                marks = [n.get("definition") for _, n in model.walk(o[1]) if n["k"] == "sec"] + [o[1].get("author")]
+                if any(isinstance(m, str) and (m.startswith("old def of") or m.startswith("outdated ")) for m in marks):
+                    rec.violation("outdated-cache-served:%s" % step[0], "%s step %d returns the outdated cached copy" % (sk, i), case)
     prev = {}
     if len(outcomes) == len(script):
         for i, (step, o) in enumerate(zip(script, outcomes)):
@@ -553,7 +564,7 @@ def _rank_of(s, i):
 
 def scenarios():
     out = []
-    for g in ("single", "chain", "nested", "nested-whole", "diamond", "missing-then-good", "good-then-missing", "unparsable-then-good",
+    for g in ("single", "chain", "long-chain", "nested", "nested-whole", "diamond", "missing-then-good", "good-then-missing", "unparsable-then-good",
               "missing-leaf", "unparsable-leaf", "missing-root", "vanished-root"):
         for script in SCRIPTS:
             if g == "vanished-root":
@@ -563,7 +574,7 @@ def scenarios():
                 continue
             if "B" in [st[1] for st in SCRIPTS[script]] and g not in ("chain", "diamond", "nested", "nested-whole"):
                 continue
-            if g in ("missing-then-good", "good-then-missing", "unparsable-then-good") and script not in (
+            if g in ("missing-then-good", "good-then-missing", "unparsable-then-good", "long-chain") and script not in (
                     "load", "deferred+load", "template-load", "load-twice", "refresh"):
                 continue
             if g == "missing-root" and script not in ("load", "deferred+load", "template-load", "repository", "load-twice",
